@@ -211,7 +211,7 @@ func main() {
 	short := mkBase(r, 0, 0)
 	recv := 1 - short.side
 	run(c, tc{Class: "valid", Side: recv, Key: short.key, KeyID: short.keyID, CT: short.ct, Expect: "accept"}, true)
-	step := c.N(29, 5)
+	step := c.N(17, 5)
 	for bit := 0; bit < len(short.ct)*8; bit++ {
 		run(c, tc{Class: "bit-flip:" + region(bit), Side: recv, Key: short.key, KeyID: short.keyID, CT: flip(short.ct, bit), Expect: "reject"}, emitEvery(bit, step))
 	}
@@ -221,7 +221,7 @@ func main() {
 		plen := 4 * r.Intn(33)
 		b := mkBase(r, plen, -1)
 		recv := 1 - b.side
-		em := func(j int) bool { return i < c.N(10, 60) && j == i%6 } // a rotating sample goes to Coq
+		em := func(j int) bool { return i < c.N(18, 60) && j == i%6 } // a rotating sample goes to Coq
 		run(c, tc{Class: "valid", Side: recv, Key: b.key, KeyID: b.keyID, CT: b.ct, Expect: "accept"}, i < c.N(4, 20))
 		// 2a. single random bit per region, and random multi-bit
 		for j := 0; j < 6; j++ {
